@@ -14,6 +14,9 @@ Line-protocol front end of the C05 model (requests after the leading `C05` field
   setIter <perm> <item,…>                              → the same for the items an iteration over the set yields
   sortedBy <perm> <item,…> <rank,…>                    → the same for sorted(set|map, cmp), cmp a b = rank a < rank b
   importCache <perm> <global=modname:id|global=-,…> <name,…> → per name: id of the module `import name` binds, or -
+  render <object graph>                                → ok <Inspect()> <PrintableValue+%v> <string(x)> <interpolation> <error() = Interface()+%v>
+                                                          <PrintableValue without the Inspect() fallback> <noRawAddr> <cellFree>   (texts in hex)
+  object graph (prefix, single spaces): <GoTypeName|pair> <address> <txt hex|-> <raw hex|-> <aux hex|-> <nkids> graph*nkids
   item := i:<int> | s:<hex> | t | f | n | d:<position of the float among the non-NaN floats> | D (NaN) | b:<byte> | y:<hex bytes>
 
 Program tokens (prefix notation, separated by single spaces):
@@ -142,7 +145,41 @@ def parseKeys (s : String) : Option (List HKey) :=
 def positions (ks sorted : List HKey) : String :=
   orDash (".".intercalate (sorted.map fun k => toString (ks.findIdx (· == k))))
 
+def parseKind (s : String) : Option Kind := (Kind.pair :: allKinds).find? (fun k => k.goName == s)
+
+def optHex (s : String) : Option String := if s = "-" then some "" else hexStr s
+
+mutual
+  def parseR : Nat → List String → Option (RObj × List String)
+    | 0, _ => none
+    | fuel + 1, k :: a :: t :: r :: x :: n :: rest => do
+      let kind ← parseKind k
+      let addr ← a.toNat?
+      let txt ← optHex t
+      let raw ← optHex r
+      let aux ← optHex x
+      let (kids, rest') ← parseRs fuel (← n.toNat?) rest
+      pure (.mk kind addr txt raw aux kids, rest')
+    | _ + 1, _ => none
+  def parseRs : Nat → Nat → List String → Option (RObjs × List String)
+    | 0, _, _ => none
+    | _ + 1, 0, r => some (.nil, r)
+    | fuel + 1, k + 1, r => do
+      let (o, r1) ← parseR fuel r
+      let (os, r2) ← parseRs fuel k r1
+      pure (.cons o os, r2)
+end
+
+def hexOut (s : String) : String := toHexField (rawBytes s)
+
 def handle : List String → String
+  | ["render", term] =>
+    let toks := term.splitOn " "
+    match parseR (toks.length + 2) toks with
+    | some (o, []) =>
+      "\t".intercalate ["ok", hexOut o.inspect, hexOut o.printable, hexOut o.stringBuiltin, hexOut o.interp,
+        hexOut (ifaceV o), hexOut o.printableNoFallback, toString o.noRawAddr, toString o.cellFree]
+    | _ => "error\tbad-graph"
   | ["frag", globals, prog] =>
     match parseProg prog with
     | none => "error\tbad-program"
